@@ -54,8 +54,16 @@ func errTag(err error) string {
 }
 
 func fbits(x float64) string { return fmt.Sprintf("%016x", math.Float64bits(x)) }
-func hx(s string) string     { return hex.EncodeToString([]byte(s)) }
+func hx(s string) string {
+	if s == "" {
+		return "-"
+	}
+	return hex.EncodeToString([]byte(s))
+}
 func unhx(s string) string {
+	if s == "-" {
+		return ""
+	}
 	b, err := hex.DecodeString(s)
 	if err != nil {
 		panic("bad hex in op: " + s)
@@ -99,6 +107,17 @@ func mask(names []string, all []string) string {
 }
 func encPair(s string, err error) string { return hx(s) + "|" + errTag(err) }
 
+type encoder interface{ Encode() (string, error) }
+
+// strEq: "1" if String() returned the same text as Encode()
+func strEq(str string, e encoder) string {
+	enc, _ := e.Encode()
+	if str == enc {
+		return "1"
+	}
+	return "0"
+}
+
 var names3 = []string{"AV", "AC", "PR", "UI", "S", "C", "I", "A", "E", "RL", "RC", "CR", "IR", "AR", "MAV", "MAC", "MPR", "MUI", "MS", "MC", "MI", "MA"}
 var names2 = []string{"AV", "AC", "Au", "C", "I", "A", "E", "RL", "RC", "CDP", "TD", "CR", "IR", "AR"}
 
@@ -115,32 +134,38 @@ func e3fields(e *m3.Environmental) []int {
 func dump3(level string, b *m3.Base, t *m3.Temporal, e *m3.Environmental) string {
 	var sb strings.Builder
 	f := b3fields(b)
+	fc := []string{b.AV.String(), b.AC.String(), b.PR.String(), b.UI.String(), b.S.String(), b.C.String(), b.I.String(), b.A.String()}
 	nm := append([]string{}, b.VerifNames()...)
 	scores := []string{fbits(b.Score())}
 	sevs := []string{strconv.Itoa(int(b.Severity()))}
+	svn := []string{b.Severity().String()}
 	encs := []string{encPair(b.Encode())}
 	ges := []string{errTag(b.GetError())}
-	strs := []string{hx(b.String())}
+	strs := []string{strEq(b.String(), b)}
 	if t != nil {
+		fc = append(fc, t.E.String(), t.RL.String(), t.RC.String())
+		svn = append(svn, t.Severity().String())
 		f = append(f, t3fields(t)...)
 		nm = append(nm, t.VerifNames()...)
 		scores = append(scores, fbits(t.Score()))
 		sevs = append(sevs, strconv.Itoa(int(t.Severity())))
 		encs = append(encs, encPair(t.Encode()))
 		ges = append(ges, errTag(t.GetError()))
-		strs = append(strs, hx(t.String()))
+		strs = append(strs, strEq(t.String(), t))
 	}
 	if e != nil {
+		fc = append(fc, e.CR.String(), e.IR.String(), e.AR.String(), e.MAV.String(), e.MAC.String(), e.MPR.String(), e.MUI.String(), e.MS.String(), e.MC.String(), e.MI.String(), e.MA.String())
+		svn = append(svn, e.Severity().String())
 		f = append(f, e3fields(e)...)
 		nm = append(nm, e.VerifNames()...)
 		scores = append(scores, fbits(e.Score()))
 		sevs = append(sevs, strconv.Itoa(int(e.Severity())))
 		encs = append(encs, encPair(e.Encode()))
 		ges = append(ges, errTag(e.GetError()))
-		strs = append(strs, hx(e.String()))
+		strs = append(strs, strEq(e.String(), e))
 	}
-	fmt.Fprintf(&sb, "v=%d f=%s n=%s s=%s sv=%s enc=%s ge=%s str=%s", int(b.Ver), ints(f...), mask(nm, names3[:len(f)]),
-		strings.Join(scores, ","), strings.Join(sevs, ","), strings.Join(encs, ","), strings.Join(ges, ","), strings.Join(strs, ","))
+	fmt.Fprintf(&sb, "v=%d vl=%s f=%s fc=%s n=%s s=%s sv=%s svn=%s enc=%s ge=%s se=%s", int(b.Ver), b.Ver.String(), ints(f...), strings.Join(fc, ","), mask(nm, names3[:len(f)]),
+		strings.Join(scores, ","), strings.Join(sevs, ","), strings.Join(svn, ","), strings.Join(encs, ","), strings.Join(ges, ","), strings.Join(strs, ""))
 	_ = level
 	return sb.String()
 }
@@ -156,35 +181,41 @@ func e2fields(e *m2.Environmental) []int {
 func dump2(b *m2.Base, t *m2.Temporal, e *m2.Environmental) string {
 	var sb strings.Builder
 	f := b2fields(b)
+	fc := []string{b.AV.String(), b.AC.String(), b.Au.String(), b.C.String(), b.I.String(), b.A.String()}
 	nm := append([]string{}, b.VerifNames()...)
 	scores := []string{fbits(b.Score())}
 	sevs := []string{strconv.Itoa(int(b.Severity()))}
+	svn := []string{b.Severity().String()}
 	encs := []string{encPair(b.Encode())}
 	ges := []string{errTag(b.GetError())}
-	strs := []string{hx(b.String())}
+	strs := []string{strEq(b.String(), b)}
 	empt := []string{}
 	if t != nil {
+		fc = append(fc, t.E.String(), t.RL.String(), t.RC.String())
+		svn = append(svn, t.Severity().String())
 		f = append(f, t2fields(t)...)
 		nm = append(nm, t.VerifNames()...)
 		scores = append(scores, fbits(t.Score()))
 		sevs = append(sevs, strconv.Itoa(int(t.Severity())))
 		encs = append(encs, encPair(t.Encode()))
 		ges = append(ges, errTag(t.GetError()))
-		strs = append(strs, hx(t.String()))
+		strs = append(strs, strEq(t.String(), t))
 		empt = append(empt, strconv.FormatBool(t.IsEmpty()))
 	}
 	if e != nil {
+		fc = append(fc, e.CDP.String(), e.TD.String(), e.CR.String(), e.IR.String(), e.AR.String())
+		svn = append(svn, e.Severity().String())
 		f = append(f, e2fields(e)...)
 		nm = append(nm, e.VerifNames()...)
 		scores = append(scores, fbits(e.Score()))
 		sevs = append(sevs, strconv.Itoa(int(e.Severity())))
 		encs = append(encs, encPair(e.Encode()))
 		ges = append(ges, errTag(e.GetError()))
-		strs = append(strs, hx(e.String()))
+		strs = append(strs, strEq(e.String(), e))
 		empt = append(empt, strconv.FormatBool(e.IsEmpty()))
 	}
-	fmt.Fprintf(&sb, "f=%s n=%s s=%s sv=%s enc=%s ge=%s str=%s emp=%s", ints(f...), mask(nm, names2[:len(f)]),
-		strings.Join(scores, ","), strings.Join(sevs, ","), strings.Join(encs, ","), strings.Join(ges, ","), strings.Join(strs, ","), strings.Join(empt, ","))
+	fmt.Fprintf(&sb, "f=%s fc=%s n=%s s=%s sv=%s svn=%s enc=%s ge=%s se=%s emp=%s", ints(f...), strings.Join(fc, ","), mask(nm, names2[:len(f)]),
+		strings.Join(scores, ","), strings.Join(sevs, ","), strings.Join(svn, ","), strings.Join(encs, ","), strings.Join(ges, ","), strings.Join(strs, ""), strings.Join(empt, ","))
 	return sb.String()
 }
 
@@ -203,7 +234,9 @@ func retTag(isNil bool, err error) string {
 }
 
 // opD3: decode into a fresh constructor result; dump the receiver afterwards (also on failure).
-func opD3(level, vec string, nilRecv bool) string {
+func opD3(level, vec string, nilRecv bool) string { return opD3x(level, vec, nilRecv, true) }
+
+func opD3x(level, vec string, nilRecv bool, withFlags bool) string {
 	switch level {
 	case "B":
 		recv := m3.NewBase()
@@ -220,7 +253,17 @@ func opD3(level, vec string, nilRecv bool) string {
 		}
 		out := "r=" + retTag(r == nil, err) + " e=" + errTag(err)
 		if recv != nil {
-			out += " " + dump3(level, recv, nil, nil)
+			d := dump3(level, recv, nil, nil)
+			out += " " + d
+			// C15: the same queries again, in reverse order of levels first, must see the same object
+			if d2 := dump3(level, recv, nil, nil); d2 == d {
+				out += " q2=1"
+			} else {
+				out += " q2=0"
+			}
+			if withFlags && r != nil && err == nil {
+				out += flags3(level, d)
+			}
 		}
 		return out
 	case "T":
@@ -238,7 +281,17 @@ func opD3(level, vec string, nilRecv bool) string {
 		}
 		out := "r=" + retTag(r == nil, err) + " e=" + errTag(err)
 		if recv != nil {
-			out += " " + dump3(level, recv.BaseMetrics(), recv, nil)
+			d := dump3(level, recv.BaseMetrics(), recv, nil)
+			out += " " + d
+			// C15: the same queries again, in reverse order of levels first, must see the same object
+			if d2 := dump3(level, recv.BaseMetrics(), recv, nil); d2 == d {
+				out += " q2=1"
+			} else {
+				out += " q2=0"
+			}
+			if withFlags && r != nil && err == nil {
+				out += flags3(level, d)
+			}
 		}
 		return out
 	case "E":
@@ -256,14 +309,26 @@ func opD3(level, vec string, nilRecv bool) string {
 		}
 		out := "r=" + retTag(r == nil, err) + " e=" + errTag(err)
 		if recv != nil {
-			out += " " + dump3(level, recv.BaseMetrics(), recv.TemporalMetrics(), recv)
+			d := dump3(level, recv.BaseMetrics(), recv.TemporalMetrics(), recv)
+			out += " " + d
+			// C15: the same queries again, in reverse order of levels first, must see the same object
+			if d2 := dump3(level, recv.BaseMetrics(), recv.TemporalMetrics(), recv); d2 == d {
+				out += " q2=1"
+			} else {
+				out += " q2=0"
+			}
+			if withFlags && r != nil && err == nil {
+				out += flags3(level, d)
+			}
 		}
 		return out
 	}
 	panic("bad level " + level)
 }
 
-func opD2(level, vec string, nilRecv bool) string {
+func opD2(level, vec string, nilRecv bool) string { return opD2x(level, vec, nilRecv, true) }
+
+func opD2x(level, vec string, nilRecv bool, withFlags bool) string {
 	switch level {
 	case "B":
 		recv := m2.NewBase()
@@ -280,7 +345,17 @@ func opD2(level, vec string, nilRecv bool) string {
 		}
 		out := "r=" + retTag(r == nil, err) + " e=" + errTag(err)
 		if recv != nil {
-			out += " " + dump2(recv, nil, nil)
+			d := dump2(recv, nil, nil)
+			out += " " + d
+			// C15: the same queries again, in reverse order of levels first, must see the same object
+			if d2 := dump2(recv, nil, nil); d2 == d {
+				out += " q2=1"
+			} else {
+				out += " q2=0"
+			}
+			if withFlags && r != nil && err == nil {
+				out += flags2(level, d)
+			}
 		}
 		return out
 	case "T":
@@ -298,7 +373,17 @@ func opD2(level, vec string, nilRecv bool) string {
 		}
 		out := "r=" + retTag(r == nil, err) + " e=" + errTag(err)
 		if recv != nil {
-			out += " " + dump2(recv.BaseMetrics(), recv, nil)
+			d := dump2(recv.BaseMetrics(), recv, nil)
+			out += " " + d
+			// C15: the same queries again, in reverse order of levels first, must see the same object
+			if d2 := dump2(recv.BaseMetrics(), recv, nil); d2 == d {
+				out += " q2=1"
+			} else {
+				out += " q2=0"
+			}
+			if withFlags && r != nil && err == nil {
+				out += flags2(level, d)
+			}
 		}
 		return out
 	case "E":
@@ -316,12 +401,111 @@ func opD2(level, vec string, nilRecv bool) string {
 		}
 		out := "r=" + retTag(r == nil, err) + " e=" + errTag(err)
 		if recv != nil {
-			out += " " + dump2(recv.BaseMetrics(), recv.TemporalMetrics(), recv)
+			d := dump2(recv.BaseMetrics(), recv.TemporalMetrics(), recv)
+			out += " " + d
+			// C15: the same queries again, in reverse order of levels first, must see the same object
+			if d2 := dump2(recv.BaseMetrics(), recv.TemporalMetrics(), recv); d2 == d {
+				out += " q2=1"
+			} else {
+				out += " q2=0"
+			}
+			if withFlags && r != nil && err == nil {
+				out += flags2(level, d)
+			}
 		}
 		return out
 	}
 	panic("bad level " + level)
 }
+
+// compact keeps only the keys the score streams need
+func compact(line string) string {
+	keep := map[string]bool{"r": true, "e": true, "s": true, "sv": true, "svn": true}
+	out := []string{}
+	for _, tok := range strings.Split(line, " ") {
+		if i := strings.IndexByte(tok, '='); i > 0 && keep[tok[:i]] {
+			out = append(out, tok)
+		}
+	}
+	return strings.Join(out, " ")
+}
+
+func kvOf(d string) map[string]string {
+	m := map[string]string{}
+	for _, tok := range strings.Split(d, " ") {
+		if i := strings.IndexByte(tok, '='); i > 0 {
+			m[tok[:i]] = tok[i+1:]
+		}
+	}
+	return m
+}
+
+// dropKey removes the token key=… (the names sets are not part of what C10 compares)
+func dropKey(d, key string) string {
+	out := []string{}
+	for _, tok := range strings.Split(d, " ") {
+		if !strings.HasPrefix(tok, key+"=") {
+			out = append(out, tok)
+		}
+	}
+	return strings.Join(out, " ")
+}
+
+func nth(csv string, i int) string {
+	p := strings.Split(csv, ",")
+	if i < len(p) {
+		return p[i]
+	}
+	return "?"
+}
+
+var lvls = []string{"B", "T", "E"}
+
+func lvlIdx(level string) int {
+	for i, l := range lvls {
+		if l == level {
+			return i
+		}
+	}
+	panic("bad level")
+}
+
+// flagsN: rt = re-decoding the object's own encoding at the same level gives an object with the
+// same observable state; pv = for each lower level, decoding the view's encoding with a fresh
+// lower-level decoder gives the view's score, severity and encoding.
+func flagsGeneric(level, d string, dec func(level, vec string, nilRecv bool) string) string {
+	m := kvOf(d)
+	L := lvlIdx(level)
+	encL := strings.SplitN(nth(m["enc"], L), "|", 2)[0]
+	rt := "0"
+	re := dec(level, unhx(encL), false)
+	if strings.HasPrefix(re, "r=1 e=- ") && dropKey(strings.TrimPrefix(re, "r=1 e=- "), "n") == dropKey(d, "n") {
+		rt = "1"
+	}
+	pv := ""
+	for l := 0; l < L; l++ {
+		encl := strings.SplitN(nth(m["enc"], l), "|", 2)[0]
+		low := kvOf(dec(lvls[l], unhx(encl), false))
+		ok := low["r"] == "1" && nth(low["s"], l) == nth(m["s"], l) && nth(low["sv"], l) == nth(m["sv"], l) &&
+			nth(low["enc"], l) == nth(m["enc"], l)
+		if ok {
+			pv += "1"
+		} else {
+			pv += "0"
+		}
+	}
+	if pv == "" {
+		pv = "-"
+	}
+	return " rt=" + rt + " pv=" + pv
+}
+
+func flags3(level, d string) string { return flagsGeneric(level, d, opD3plain) }
+func flags2(level, d string) string { return flagsGeneric(level, d, opD2plain) }
+
+// decode + dump without the rt/pv flags (used by the flags themselves)
+func opD3plain(level, vec string, nilRecv bool) string { return opD3x(level, vec, nilRecv, false) }
+func opD2plain(level, vec string, nilRecv bool) string { return opD2x(level, vec, nilRecv, false) }
 
 func runOp(line string) (out string) {
 	defer func() {
@@ -340,6 +524,10 @@ func runOp(line string) (out string) {
 		return ""
 	}
 	switch f[0] {
+	case "S3":
+		return compact(opD3(arg(1), unhx(arg(2)), false))
+	case "S2":
+		return compact(opD2(arg(1), unhx(arg(2)), false))
 	case "D3":
 		return opD3(arg(1), unhx(arg(2)), false)
 	case "N3":
